@@ -64,7 +64,7 @@ func Run(c Case) (res core.Result) {
 	res = core.Result{Labels: append([]string{fmt.Sprintf("connections=%d", c.NConn)}, c.Classes...)}
 	for _, cl := range c.Classes {
 		switch cl {
-		case "large-message-between", "reparse-before-execute", "rebind-portal", "close-then-use", "same-name-on-two-connections", "describe-after-reparse", "params-per-portal":
+		case "simple-query-between", "large-message-between", "reparse-before-execute", "rebind-portal", "close-then-use", "same-name-on-two-connections", "describe-after-reparse", "params-per-portal":
 			res.NonTrivial = true
 		}
 	}
